@@ -19,7 +19,7 @@ Definition ex_proj (s : struct) (k : command) (ev : str) : project :=
   [{| sf_path := ex_path; sf_cmds := [k]; sf_structs := [s]; sf_events := [{| e_name := ev; e_payload := L "String" |}] |}].
 Definition ex_cfg (lib : string) (viz : bool) : config :=
   {| g_lib := L lib; g_private := false; g_maps := None; g_pcase := L "camelCase"; g_fcase := L "snake_case";
-     g_viz := viz; g_force := false |}.
+     g_viz := viz; g_force := false; g_ppath := L "src-tauri" |}.
 Definition v1 := Some (L "length(min = 1)").
 Definition v2 := Some (L "length(min = 3)").
 Definition p0 := ex_proj (ex_struct None None v1) (ex_cmd None None) (L "ping").
@@ -27,19 +27,19 @@ Definition c0 := ex_cfg "none" false.
 Definition cz := ex_cfg "zod" false.
 Definition w1 : sched := {| w_files := [0]; w_maps := [] |}.
 
-Definition final (p : project) (c : config) (ops : list cop) := fold_left (stepG_c false) ops (init_state p c, None).
+Definition final (p : project) (c : config) (ops : list cop) := fold_left (stepG_c true) ops (init_state p c, None).
 
 (* a history ending in a cache hit over files that are not current *)
 Definition refutes (cls : list nat) (p : project) (c : config) (ops : list cop) : Prop :=
   let sg := final p c ops in
-  kf_C08 w1 sg = cls /\ fst (run_c false w1 false None (fst sg)) = UpToDate /\
-  all_current w1 (snd (run_c false w1 false None (fst sg))) = false.
+  kf_C08 w1 sg = cls /\ fst (run_c true w1 false None (fst sg)) = UpToDate /\
+  all_current w1 (snd (run_c true w1 false None (fst sg))) = false.
 
 (* the same shape of history, now detected: no class, the run regenerates and everything is current *)
 Definition detects (p : project) (c : config) (ops : list cop) : Prop :=
   let sg := final p c ops in
-  kf_C08 w1 sg = [] /\ fst (run_c false w1 false None (fst sg)) = Success /\
-  all_current w1 (snd (run_c false w1 false None (fst sg))) = true.
+  kf_C08 w1 sg = [] /\ fst (run_c true w1 false None (fst sg)) = Success /\
+  all_current w1 (snd (run_c true w1 false None (fst sg))) = true.
 
 Notation RunOp := (Run project config sched fname).
 Notation SetSrcOp := (SetSrc project config sched fname).
@@ -56,19 +56,19 @@ Lemma fixed_4 : detects p0 c0 [RunOp w1 false; SetSrcOp (ex_proj (ex_struct None
 Proof. vm_compute. repeat split. Qed.
 Lemma fixed_5 : detects p0 c0 [RunOp w1 false; SetSrcOp (ex_proj (ex_struct None None v1) (ex_cmd None (Some (L "uid"))) (L "ping"))].
 Proof. vm_compute. repeat split. Qed.
-Lemma refuted_6 : refutes [6] p0 c0 [RunOp w1 false; SetSrcOp (ex_proj (ex_struct None None v1) (ex_cmd None None) (L "pong"))].
+Lemma fixed_6 : detects p0 c0 [RunOp w1 false; SetSrcOp (ex_proj (ex_struct None None v1) (ex_cmd None None) (L "pong"))].
 Proof. vm_compute. repeat split. Qed.
 Lemma fixed_7 : detects p0 c0 [RunOp w1 false; SetCfgOp (ex_cfg "none" true)].
 Proof. vm_compute. repeat split. Qed.
 Lemma refuted_8 : refutes [8] p0 (ex_cfg "none" true)
   [RunOp w1 false; SetSrcOp (ex_proj (ex_struct None None v1) (ex_cmd_at "11" None None) (L "ping"))].
 Proof. vm_compute. repeat split. Qed.
-Lemma refuted_9 : refutes [9] p0 c0 [RunOp w1 false; DeleteOp Types].
+Lemma fixed_9 : detects p0 c0 [RunOp w1 false; DeleteOp Types].
 Proof. vm_compute. repeat split. Qed.
 (* validator attributes do not reach the files in mode none: no class, no staleness *)
 Lemma validator_none_harmless :
   let sg := final p0 c0 [RunOp w1 false; SetSrcOp (ex_proj (ex_struct None None v2) (ex_cmd None None) (L "ping"))] in
-  kf_C08 w1 sg = [] /\ all_current w1 (snd (run_c false w1 false None (fst sg))) = true.
+  kf_C08 w1 sg = [] /\ all_current w1 (snd (run_c true w1 false None (fst sg))) = true.
 Proof. vm_compute. split; reflexivity. Qed.
 
 (* a hashed edit is detected: the premises of the main theorem hold on a non-trivial history *)
@@ -80,11 +80,11 @@ Definition p_field_type : project :=
       sf_events := [] |}].
 Lemma ex_detected :
   let sg := final p0 c0 [RunOp w1 false; SetSrcOp p_field_type; DeleteOp Events; RunOp w1 false; SetCfgOp cz] in
-  kf_C08 w1 sg = [] /\ fst (run_c false w1 false None (fst sg)) = Success.
+  kf_C08 w1 sg = [] /\ fst (run_c true w1 false None (fst sg)) = Success.
 Proof. vm_compute. split; reflexivity. Qed.
 Lemma ex_hit :
   let sg := final p0 c0 [RunOp w1 false; SetSrcOp p_field_type; RunOp w1 false] in
-  kf_C08 w1 sg = [] /\ fst (run_c false w1 false None (fst sg)) = UpToDate.
+  kf_C08 w1 sg = [] /\ fst (run_c true w1 false None (fst sg)) = UpToDate.
 Proof. vm_compute. split; reflexivity. Qed.
 
 Lemma filter_nil {A} (f : A -> bool) l : (forall x, In x l -> f x = false) -> filter f l = [].
@@ -99,9 +99,9 @@ Proof. intros H. unfold all_current, stale.
   - intros [f x] Hin. cbn [fst snd]. rewrite (H f x Hin). reflexivity. Qed.
 
 Lemma refutes_not_sound cls p c ops : refutes cls p c ops ->
-  exists r st', run_c false w1 false None (fst (final p c ops)) = (r, st') /\ r = UpToDate /\
+  exists r st', run_c true w1 false None (fst (final p c ops)) = (r, st') /\ r = UpToDate /\
      ~ up_to_date project config sched fname tree tree files w1 st'.
-Proof. intros (_ & Hr & Hc). destruct (run_c false w1 false None (fst (final p c ops))) as [r st'] eqn:E.
+Proof. intros (_ & Hr & Hc). destruct (run_c true w1 false None (fst (final p c ops))) as [r st'] eqn:E.
   exists r, st'. cbn [fst snd] in *. split; [reflexivity|]. split; [exact Hr|].
   intros Hu. apply up_to_date_all_current in Hu. congruence. Qed.
 
@@ -118,7 +118,7 @@ Definition w01 : sched := {| w_files := [0; 1]; w_maps := [] |}.
 Definition w10 : sched := {| w_files := [1; 0]; w_maps := [] |}.
 Definition cmaps : config :=
   {| g_lib := L "none"; g_private := false; g_maps := Some [(L "A", L "string"); (L "B", L "number")];
-     g_pcase := L "camelCase"; g_fcase := L "snake_case"; g_viz := false; g_force := false |}.
+     g_pcase := L "camelCase"; g_fcase := L "snake_case"; g_viz := false; g_force := false; g_ppath := L "src-tauri" |}.
 Definition wm01 : sched := {| w_files := [0]; w_maps := [0; 1] |}.
 Definition wm10 : sched := {| w_files := [0]; w_maps := [1; 0] |}.
 
@@ -126,30 +126,47 @@ Definition wm10 : sched := {| w_files := [0]; w_maps := [1; 0] |}.
    (former witnesses of C14-1 and C14-2) *)
 Lemma c14_fixed_files :
   valid_sched w01 p2 c0 = true /\ valid_sched w10 p2 c0 = true /\
-  let st1 := snd (run_c false w01 false None (init_state p2 c0)) in
-  run_c false w10 false None st1 = (UpToDate, st1) /\ fst (run_c false w01 false None (init_state p2 c0)) = Success.
+  let st1 := snd (run_c true w01 false None (init_state p2 c0)) in
+  run_c true w10 false None st1 = (UpToDate, st1) /\ fst (run_c true w01 false None (init_state p2 c0)) = Success.
 Proof. vm_compute. repeat split. Qed.
 Lemma c14_fixed_maps :
   valid_sched wm01 p0 cmaps = true /\ valid_sched wm10 p0 cmaps = true /\
-  let st1 := snd (run_c false wm01 false None (init_state p0 cmaps)) in
-  fst (run_c false wm10 false None st1) = UpToDate.
+  let st1 := snd (run_c true wm01 false None (init_state p0 cmaps)) in
+  fst (run_c true wm10 false None st1) = UpToDate.
 Proof. vm_compute. repeat split. Qed.
 Lemma c14_ex_keys :
-  NoDup (map cmd_key (a_cmds (analyse w01 p2))) /\ NoDup (map s_name (a_structs (analyse w01 p2))) /\ has_commands p2 = true.
+  NoDup (map (cmd_key (g_ppath c0)) (a_cmds (analyse w01 p2))) /\ NoDup (map s_name (a_structs (analyse w01 p2))) /\ has_commands p2 = true.
 Proof. split; [|split; [constructor|reflexivity]].
   repeat (constructor; [cbn; intuition discriminate|]). constructor. Qed.
 
 (* ---- C17 witness for the premises ---- *)
 Lemma c17_ex :
-  fst (run_c false w1 false (Some 1) (init_state p0 c0)) = Failure /\
-  fst (run_c false w1 false (Some 4) (init_state p0 c0)) = Success /\
+  fst (run_c true w1 false (Some 1) (init_state p0 c0)) = Failure /\
+  fst (run_c true w1 false (Some 4) (init_state p0 c0)) = Success /\
   length (files w1 p0 c0) = 4.
 Proof. vm_compute. repeat split. Qed.
 
-(* ---- C14: the same project reached through another spelling of the project path ---- *)
+(* ---- C14: the same project reached through another spelling of the project path (former witness of C14-3):
+   the fingerprint is the same and the second run is a no-op ---- *)
 Definition mk_file_at (dir : string) : sfile := mk_file (dir ++ "/a.rs") "cmd_a".
-Lemma c14_refuted_path :
-  kf_C14_path w1 [mk_file_at "./src-tauri"] [mk_file_at "src-tauri"] c0 = true /\
-  let st1 := snd (run_c false w1 false None (init_state [mk_file_at "./src-tauri"] c0)) in
-  fst (run_c false w1 false None (step_c false st1 (SetSrcOp [mk_file_at "src-tauri"]))) = Success.
+Definition cfg_at (dir : string) (viz : bool) : config :=
+  {| g_lib := L "none"; g_private := false; g_maps := None; g_pcase := L "camelCase"; g_fcase := L "snake_case";
+     g_viz := viz; g_force := false; g_ppath := L dir |}.
+Lemma c14_fixed_path :
+  fp w1 [mk_file_at "./src-tauri"] (cfg_at "./src-tauri" false) = fp w1 [mk_file_at "src-tauri"] (cfg_at "src-tauri" false) /\
+  let st1 := snd (run_c true w1 false None (init_state [mk_file_at "./src-tauri"] (cfg_at "./src-tauri" false))) in
+  let st2 := step_c true (step_c true st1 (SetSrcOp [mk_file_at "src-tauri"])) (SetCfgOp (cfg_at "src-tauri" false)) in
+  run_c true w1 false None st2 = (UpToDate, st2).
 Proof. vm_compute. split; reflexivity. Qed.
+(* with visualize_deps on the spelling is printed into the graph, is hashed, and the run regenerates *)
+Lemma c14_path_under_viz :
+  let st1 := snd (run_c true w1 false None (init_state [mk_file_at "./src-tauri"] (cfg_at "./src-tauri" true))) in
+  let st2 := step_c true (step_c true st1 (SetSrcOp [mk_file_at "src-tauri"])) (SetCfgOp (cfg_at "src-tauri" true)) in
+  fst (run_c true w1 false None st2) = Success.
+Proof. vm_compute. reflexivity. Qed.
+
+Lemma rel_path_app (root r : str) : rel_path root (root ++ L "/" ++ r)%list = r.
+Proof. unfold rel_path. rewrite app_assoc.
+  assert (H : forall a b : str, strip_pre a (a ++ b)%list = Some b).
+  { induction a as [|x a IH]; intros b; cbn [strip_pre app]; [reflexivity|]. rewrite Ascii.eqb_refl. apply IH. }
+  rewrite H. reflexivity. Qed.
